@@ -490,9 +490,14 @@ def cases(tier):
     else:
         link_sets = [list(range(NLINKS)), list(range(NLINKS))[::-1]] + [list(p) for p in itertools.permutations(range(NLINKS), 2)]
     windows = [(None, -2), (-1, -1), (0, 0), (1, 1), (2, None)]
-    for name in MOLS:
-        for links in link_sets:
-            for flag in ((True,) if tier == 'quick' and 4 not in links else (True, False)):
+    if tier == 'quick':
+        combos = [('lin4', [0, 1, 3]), ('lin4', [5, 6, 0]), ('branch4', [2, 4, 0]), ('branch4', [7, 8, 9]),
+                  ('lin3x', [7, 8, 9]), ('lin3x', [2, 4, 0]), ('ring3', [0, 1, 3])]
+    else:
+        combos = [(name, links) for name in MOLS for links in link_sets]
+    for name, links in combos:
+        if True:
+            for flag in ((True,) if 4 not in links else (True, False)):
                 for lo, hi in windows:
                     part = {'mol': name, 'links': links, 'flag': flag}
                     if lo is not None:
